@@ -69,7 +69,7 @@ ClauseCalls(f) ==
     \cup (IF kind \in {"update", "delete", "insertvalues"} THEN {[m |-> "returning", terms |-> <<f>>]} ELSE {})
     \cup (IF kind = "insertvalues" THEN {[m |-> "columnsf", f |-> f], [m |-> "where", crit |-> Cmp(f, Num("1"))],
                                          [m |-> "do_update", col |-> "b", val |-> f]} ELSE {})
-Outside == {"T5", "Q6", "C7"}
+Outside == {"T5", "Q6", "C7"}     \* (A1: the table t1 under an alias and T1b: an equal, distinct Table("t1") object appear in the correlated comparisons below)
 NameCalls == IF kind = "insertvalues" THEN {[m |-> "columns", names |-> <<"a", "b">>], [m |-> "on_conflict", names |-> <<"a">>], [m |-> "do_nothing"]}
              ELSE IF kind = "insertselect" THEN {[m |-> "columns", names |-> <<"a">>], [m |-> "on_conflict", names |-> <<"a">>], [m |-> "do_nothing"]} ELSE {}
 Clause == /\ stage >= 3 /\ stage < 3 + MaxClauses
@@ -78,6 +78,10 @@ Clause == /\ stage >= 3 /\ stage < 3 + MaxClauses
                     /\ (c.m \in {"returning", "do_update"} => s \in scope)
                     /\ (c.m \in {"setf", "columnsf"} => s = hist[1].src)                \* name positions take columns of the statement's own table
                     /\ Do(c)
+             \* a correlated comparison: an outside source's column against the same-named column of the statement's own first source
+             \/ \E s \in {"A1", "T1b", "T5"} \ scope, col \in {"a"}, flip \in BOOLEAN :
+                    /\ stage = 3 /\ kind \in {"select", "delete", "update"} /\ hist[1].m \in {"from_", "update"}
+                    /\ Do([m |-> "where", crit |-> IF flip THEN Cmp(Fld(hist[1].src, col), Fld(s, col)) ELSE Cmp(Fld(s, col), Fld(hist[1].src, col))])
              \/ \E c \in NameCalls : (\A k \in DOMAIN hist : hist[k] # c) /\ Do(c)
           /\ stage' = stage + 1 /\ UNCHANGED <<kind, scope>>
 
